@@ -427,7 +427,9 @@ def ob_composite(method, tier="quick", part=None):
                     elif method in ("max", "min"):
                         r = getattr(cf, method)(e, extra_constraints=x)
                     elif method == "solution":
-                        r = cf.solution(e, TE((), name="v"), extra_constraints=x)
+                        # the value asked about may itself be symbolic, over variables constrained in ANOTHER child than e's
+                        v = TE(VARSETS[c.choose([True] * len(VARSETS), "value-variables")], name="v")
+                        r = cf.solution(e, v, extra_constraints=x)
                     else:
                         r = getattr(cf, method)(e, extra_constraints=x)
                 except UnsatError:
@@ -442,6 +444,12 @@ def ob_composite(method, tier="quick", part=None):
                     K = conj(k.constraints) & conj(list(x))
                     if method in ("is_true", "is_false"):
                         c.check(label + "/child-view-implied", (G & ~conj(k.constraints)) == 0, "the child that was asked holds a constraint that the solver's constraints do not imply")
+                    elif method == "solution":
+                        c.check(label + "/same-question[value]", l[1][1] is v, "the child was asked about another value")
+                        for eq in (~(e.table ^ v.table), e.table ^ v.table):
+                            c.check(label + "/same-values", ((K & eq) != 0) == ((GX & eq) != 0),
+                                    "under the asked child's constraints e == v is (im)possible although under the solver's constraints it is not: the child does not "
+                                    "hold the constraints over the variables of e, v and the extra constraints")
                     else:
                         for bitval in (0, 1):
                             ev = e.table if bitval else ~e.table
